@@ -75,6 +75,9 @@ package bytesconv
 //@ extern fmt.Sprintf(format, a) r
 //@   allocates
 //@ extern errors.New(text) r
+//@ extern errors.Is(err, target) r
+//@ extern strings.Contains(s, substr) r
+//@ interface builtin.error.Error(this) r
 //@   allocates
 //@   ensures r != nil
 
@@ -90,7 +93,8 @@ package bytesconv
 //@   modifies this.avail, this.failed
 //@   ensures len(p) <= n && (err == nil ==> len(p) == n && this.avail >= n) && (err != nil ==> this.failed) && (old(this.failed) ==> this.failed)
 //@   ensures forall(k, 0, len(p), p[k] == wire(this, this.pos + k))
-//@   ensures this.avail >= 0
+//@   ensures this.avail >= 0 && this.avail >= len(p)
+//@   ensures 0 <= n && n <= old(this.avail) ==> err == nil
 //@ interface network.Reader.Skip(this, n) err
 //@   modifies this.pos, this.avail
 //@   ensures err == nil ==> this.pos == old(this.pos) + n && this.avail == old(this.avail) - n
